@@ -51,9 +51,8 @@ Definition pair_ok (endpoints_codec : bool) (t : gotype) (cw : wcodec) (cr : rco
   | _, _, _ => false
   end.
 
-Section Check.
-Variable E : gob_env.
-
+(* ---- the per-field check, generic in which encoders fit a Go type ([fits]) and which encoder / decoder
+        pairs are inverse ([pok]): used for the 14 struct kinds and, one level down, for the leaf structs ---- *)
 Definition w_field (e : gwentry) : option fid := match e with GW f _ _ _ _ _ _ => Some f | _ => None end.
 
 (* some write statement for [f] is executed whenever [f] is set.  [flagged]: a statement seen before sets
@@ -91,17 +90,6 @@ Definition codec_guard_ok (c : wcodec) (t : gotype) (g : gguard) : bool :=
 Definition raw_codec (cn : bytes) : bool :=
   match wcodec_of cn with Some (CwIri | CwType | CwRawBytes) => true | _ => false end.
 
-(* the write statements for [f]: guard on [f] itself (or none / hasData), known codec fitting the type *)
-Definition wentry_ok (f : fid) (t : gotype) (e : gwentry) : bool :=
-  match e with
-  | GW f' key cn gf g _ _ =>
-      if fid_beq f' f then
-        fid_beq gf f && match wcodec_of cn with Some c => wcodec_fits c t && codec_guard_ok c t g | None => false end
-        && (if fid_beq f F_Type then bytes_eqb key (B "type") && raw_codec cn else true)
-      else true
-  | _ => true
-  end.
-
 Definition read_entry (f : fid) (R : list grentry) : option (bytes * bytes) :=
   match find (fun e => match e with GR f' _ _ _ => fid_beq f' f | _ => false end) R with
   | Some (GR _ key cn _) => Some (key, cn)
@@ -111,8 +99,27 @@ Definition read_entry (f : fid) (R : list grentry) : option (bytes * bytes) :=
 Definition count_reads (f : fid) (R : list grentry) : nat :=
   length (filter (fun e => match e with GR f' _ _ _ => fid_beq f' f | _ => false end) R).
 
+Inductive field_verdict :=
+| FieldOk
+| FieldBad (reason : bytes).
+
+Section GenCheck.
+Variable fits : wcodec -> gotype -> bool.
+Variable pok : gotype -> wcodec -> rcodec -> bool.
+
+(* the write statements for [f]: guard on [f] itself (or none / hasData), known codec fitting the type *)
+Definition wentry_ok_gen (f : fid) (t : gotype) (e : gwentry) : bool :=
+  match e with
+  | GW f' key cn gf g _ _ =>
+      if fid_beq f' f then
+        fid_beq gf f && match wcodec_of cn with Some c => fits c t && codec_guard_ok c t g | None => false end
+        && (if fid_beq f F_Type then bytes_eqb key (B "type") && raw_codec cn else true)
+      else true
+  | _ => true
+  end.
+
 (* every reader of [f] uses the key every writer of [f] uses, with an inverse codec *)
-Definition cross_ok (f : fid) (t : gotype) (W : list gwentry) (R : list grentry) : bool :=
+Definition cross_ok_gen (f : fid) (t : gotype) (W : list gwentry) (R : list grentry) : bool :=
   forallb (fun er =>
     match er with
     | GR fr key crn _ =>
@@ -123,7 +130,7 @@ Definition cross_ok (f : fid) (t : gotype) (W : list gwentry) (R : list grentry)
                                 | GW f' key' cwn _ _ _ _ =>
                                     if fid_beq f' f then
                                       bytes_eqb key' key &&
-                                      match wcodec_of cwn with Some cw => pair_ok (ge_endpoints_codec E) t cw cr | None => false end
+                                      match wcodec_of cwn with Some cw => pok t cw cr | None => false end
                                     else true
                                 | _ => true
                                 end) W
@@ -133,16 +140,12 @@ Definition cross_ok (f : fid) (t : gotype) (W : list gwentry) (R : list grentry)
     | _ => true
     end) R.
 
-Inductive field_verdict :=
-| FieldOk
-| FieldBad (reason : bytes).
-
-Definition field_check (W : list gwentry) (R : list grentry) (d : fdecl) : field_verdict :=
+Definition field_check_gen (W : list gwentry) (R : list grentry) (d : fdecl) : field_verdict :=
   let f := fd_fid d in
   let t := fd_type d in
   if negb (existsb (fun e => match w_field e with Some f' => fid_beq f' f | None => false end) W)
   then FieldBad (B "no statement writes the field")
-  else if negb (forallb (wentry_ok f t) W)
+  else if negb (forallb (wentry_ok_gen f t) W)
   then FieldBad (B "a write statement tests another field, or its encoder is unknown or does not fit the Go type")
   else if negb (fires f t false W)
   then FieldBad (B "the guard of the write statement is stronger than `the field is set`")
@@ -150,28 +153,13 @@ Definition field_check (W : list gwentry) (R : list grentry) (d : fdecl) : field
   then FieldBad (B "no statement sets hasData when only this field is set")
   else if Nat.eqb (count_reads f R) 0 then FieldBad (B "no statement reads the field")
   else if negb (Nat.eqb (count_reads f R) 1) then FieldBad (B "the field is read more than once")
-  else if negb (cross_ok f t W R)
+  else if negb (cross_ok_gen f t W R)
   then FieldBad (B "reader and writer disagree on the key, or the decoder is not the inverse of the encoder")
   else FieldOk.
 
-Definition field_ok (W : list gwentry) (R : list grentry) (d : fdecl) : bool :=
-  match field_check W R d with FieldOk => true | FieldBad _ => false end.
-
-(* statements as a whole *)
-Definition in_layout (k : kind) (f : fid) : bool := existsb (fun d => fid_beq (fd_fid d) f) (ge_layout E k).
-
-Definition w_recognised (k : kind) (e : gwentry) : bool :=
-  match e with
-  | GW f _ _ gf _ _ _ => in_layout k f && in_layout k gf
-  | GWFlag gf _ _ => in_layout k gf
-  | GWDeleg _ _ _ | GWUnrecognised _ _ => false
-  end.
-
-Definition r_recognised (k : kind) (e : grentry) : bool :=
-  match e with
-  | GR f _ cn _ => in_layout k f && match rcodec_of cn with Some _ => true | None => false end
-  | GRDeleg _ _ _ | GRUnrecognised _ _ => false
-  end.
+Definition field_ok_gen (W : list gwentry) (R : list grentry) (d : fdecl) : bool :=
+  match field_check_gen W R d with FieldOk => true | FieldBad _ => false end.
+End GenCheck.
 
 (* on the write side a key belongs to one field *)
 Definition w_keys_ok (W : list gwentry) : bool :=
@@ -193,6 +181,56 @@ Definition r_keys_ok (W : list gwentry) (R : list grentry) : bool :=
     | GR f1 k1 _ _, GW f2 k2 _ _ _ _ _ => if bytes_eqb k1 k2 then fid_beq f1 f2 else true
     | _, _ => true
     end) W) R.
+
+Fixpoint nodup_fids (l : list fid) : bool :=
+  match l with [] => true | x :: r => negb (existsb (fid_beq x) r) && nodup_fids r end.
+Fixpoint nodup_bytes (l : list bytes) : bool :=
+  match l with [] => true | x :: r => negb (existsb (bytes_eqb x) r) && nodup_bytes r end.
+
+(* a struct (its field declarations [L]) with its write statements [W] and read statements [R] *)
+Definition in_fields (L : list fdecl) (f : fid) : bool := existsb (fun d => fid_beq (fd_fid d) f) L.
+
+Definition w_recognised_in (L : list fdecl) (e : gwentry) : bool :=
+  match e with
+  | GW f _ _ gf _ _ _ => in_fields L f && in_fields L gf
+  | GWFlag gf _ _ => in_fields L gf
+  | GWDeleg _ _ _ | GWUnrecognised _ _ => false
+  end.
+
+Definition r_recognised_in (L : list fdecl) (e : grentry) : bool :=
+  match e with
+  | GR f _ cn _ => in_fields L f && match rcodec_of cn with Some _ => true | None => false end
+  | GRDeleg _ _ _ | GRUnrecognised _ _ => false
+  end.
+
+Definition struct_ok (fits : wcodec -> gotype -> bool) (pok : gotype -> wcodec -> rcodec -> bool)
+           (L : list fdecl) (W : list gwentry) (R : list grentry) : bool :=
+  nodup_fids (map fd_fid L) && forallb (w_recognised_in L) W && forallb (r_recognised_in L) R &&
+  w_keys_ok W && r_keys_ok W R && forallb (field_ok_gen fits pok W R) L.
+
+Section Check.
+Variable E : gob_env.
+
+Definition wentry_ok := wentry_ok_gen wcodec_fits.
+Definition cross_ok := cross_ok_gen (pair_ok (ge_endpoints_codec E)).
+Definition field_check := field_check_gen wcodec_fits (pair_ok (ge_endpoints_codec E)).
+Definition field_ok := field_ok_gen wcodec_fits (pair_ok (ge_endpoints_codec E)).
+
+(* statements as a whole *)
+Definition in_layout (k : kind) (f : fid) : bool := existsb (fun d => fid_beq (fd_fid d) f) (ge_layout E k).
+
+Definition w_recognised (k : kind) (e : gwentry) : bool :=
+  match e with
+  | GW f _ _ gf _ _ _ => in_layout k f && in_layout k gf
+  | GWFlag gf _ _ => in_layout k gf
+  | GWDeleg _ _ _ | GWUnrecognised _ _ => false
+  end.
+
+Definition r_recognised (k : kind) (e : grentry) : bool :=
+  match e with
+  | GR f _ cn _ => in_layout k f && match rcodec_of cn with Some _ => true | None => false end
+  | GRDeleg _ _ _ | GRUnrecognised _ _ => false
+  end.
 
 (* T.GobEncode and T.GobDecode have the one body shape the model gives them *)
 Definition methods_ok (k : kind) : bool :=
@@ -252,11 +290,6 @@ Fixpoint r_views_ok (fuel : nat) (k : kind) (fn : bytes) : bool :=
       | _ => false
       end
   end.
-
-Fixpoint nodup_fids (l : list fid) : bool :=
-  match l with [] => true | x :: r => negb (existsb (fid_beq x) r) && nodup_fids r end.
-Fixpoint nodup_bytes (l : list bytes) : bool :=
-  match l with [] => true | x :: r => negb (existsb (bytes_eqb x) r) && nodup_bytes r end.
 
 Definition endpoints_layout_ok : bool :=
   nodup_fids (map fd_fid (ge_layout_endpoints E)) && nodup_bytes (map fd_term (ge_layout_endpoints E)).
